@@ -1,2 +1,187 @@
-(* C09 placeholder while the proofs are being written *)
-From RV Require Import Rpc.Model.
+(* C09 — Every RPC completes and replies are never cross-wired.
+   Only statements, pins, non-vacuity examples and Print Assumptions.
+   Model: Rpc/Model.v; proofs: Rpc/Proofs.v.
+
+   Every theorem quantifies over ALL label sequences `ls` from `init t n` (n actors): any number
+   of callers creating calls with or without timeout / forwarding target at any time, the callee
+   dequeuing, whoever holds a reply port replying with ANY value / dropping it / storing it in
+   the actor's state / handing it to another task, handlers returning, actors exiting at ANY
+   moment (stop, kill, panic, error, drain are all `Exit`, drain's refusal is `StopAccept`),
+   callers being polled, clock advances and timer-driver turns in any order.  The callee's code
+   is therefore universally quantified.  tokio oneshot / timeout / timer wheel and the linearity
+   of the reply port (Rust ownership) are MODELLED (see Rpc/Model.v header), not verified. *)
+From Coq Require Import List NArith Bool.
+From RV Require Import Rpc.Model Rpc.Proofs.
+Import ListNotations.
+Local Open Scope N_scope.
+
+(* (1) Success v only if v is the first value sent on that call's OWN reply port (the log
+   `replies` is appended only by a `Reply c v` performed by the current holder of c's port:
+   C09_replies_by_holder) *)
+Theorem C09_success_sound : forall ls t n c cl v tt,
+  let s := run ls (init t n) in
+  nth_error (calls s) c = Some cl -> c_st cl = CGot (RSuccess v) tt ->
+  first_reply c (replies s) = Some v.
+Proof. exact success_sound. Qed.
+
+Theorem C09_replies_by_holder : forall s l,
+  replies (step s l) = replies s
+  \/ exists c v cl, l = Reply c v /\ nth_error (calls s) c = Some cl /\ held (c_loc cl) = true
+                    /\ replies (step s l) = replies s ++ [(c, v)].
+Proof. exact replies_step. Qed.
+
+(* (2) no hang: the callee is gone (any cause) or the port is gone, and the port was not handed
+   to another task: a waiting caller completes at its next poll with SenderError (or with the
+   value already sent); in particular a quiescent caller is never still waiting *)
+Theorem C09_no_hang : forall ls t n c cl dl,
+  let s := run ls (init t n) in
+  nth_error (calls s) c = Some cl -> c_st cl = CWaiting dl ->
+  (~ alive_at (actors s) (c_callee cl) \/ c_loc cl = LGone) -> c_loc cl <> LTask ->
+  (exists r, nth_error (calls (step s (Poll c))) c
+             = Some (set_call cl (CGot r (now s)) (c_ch cl) (c_loc cl) (c_first cl))
+             /\ (r = RSenderError \/ exists v, r = RSuccess v /\ c_ch cl = ChFull v))
+  /\ ~ caller_quiescent s c.
+Proof. exact no_hang. Qed.
+
+(* (3) timeouts: the deadline is exactly T after the start of the call; once the timer driver
+   has seen it pass, the next poll completes the call, so a quiescent caller is not waiting;
+   and Timeout is never returned before T has elapsed *)
+Theorem C09_timeout_bound : forall ls t n c cl D,
+  let s := run ls (init t n) in
+  nth_error (calls s) c = Some cl -> c_st cl = CWaiting (Some D) ->
+  (exists T, c_tmo cl = Some T /\ D = c_t0 cl + T)
+  /\ (elapsed (wheel s) D = true ->
+      (exists r, nth_error (calls (step s (Poll c))) c
+                 = Some (set_call cl (CGot r (now s)) (c_ch cl) (c_loc cl) (c_first cl)))
+      /\ ~ caller_quiescent s c).
+Proof. exact timeout_bound. Qed.
+
+Theorem C09_timeout_not_early : forall ls t n c cl tt,
+  let s := run ls (init t n) in
+  nth_error (calls s) c = Some cl -> c_st cl = CGot RTimeout tt ->
+  exists T, c_tmo cl = Some T /\ c_t0 cl + T <= tt.
+Proof. exact timeout_not_early. Qed.
+
+(* (4) no cross-wiring: whatever acts on call c (a reply, a drop, a move of its port, its
+   caller's poll) leaves every other call exactly as it was -- in ANY state *)
+Theorem C09_no_crosswire : forall s l c c',
+  call_label l = Some c -> c' <> c -> nth_error (calls (step s l)) c' = nth_error (calls s) c'.
+Proof. exact no_crosswire. Qed.
+
+(* (5) multi_call: the requests are created in target order, request i is addressed to target
+   i and stays so; the result vector is by definition indexed like the request ids.
+   PARTIAL: stated for the driver's `multi_send` and `gres_of`, i.e. for the model of
+   rpc::multi_call; that the real JoinSet threads the index is checked by correspondence only *)
+Theorem C09_multi_order_partial : forall ts tmo d ids d' ids' failed,
+  multi_send ts tmo d ids = (d', ids', failed) ->
+  (forall i c a, nth_error ids i = Some c -> callee_is (d_s d) c a -> callee_is (d_s d') c a)
+  /\ exists new, ids' = ids ++ new
+     /\ (failed = false -> length new = length ts)
+     /\ forall i c a, nth_error new i = Some c -> nth_error ts i = Some a -> callee_is (d_s d') c a.
+Proof. exact multi_order. Qed.
+
+Theorem C09_multi_vector : forall s g rs tt,
+  gres_of s g = GOk rs tt ->
+  rs = map (fun c => match nth_error (calls s) c with Some cl => fst (ores_of (c_st cl)) | None => OPending end) (g_ids g).
+Proof. exact gres_vector. Qed.
+(* OPEN: C09_multi_order for whole scenarios (forall ops, every started group of `exec n ops`
+   keeps ids.(i) addressed to targets.(i) until the end) -- needs the group invariant threaded
+   through all driver functions; not done. *)
+
+(* (6) call_and_forward: at most one forward per call; exactly one, carrying the reply's value,
+   issued at the completion time, when the call succeeded; none otherwise *)
+Theorem C09_forward_once : forall ls t n c cl,
+  let s := run ls (init t n) in
+  nth_error (calls s) c = Some cl ->
+  (length (fw_of c (fwds s)) <= 1)%nat
+  /\ (forall v tt b, c_st cl = CGot (RSuccess v) tt -> c_fwd cl = Some b ->
+        exists ok, fw_of c (fwds s) = [(c, v, tt, ok)])
+  /\ ((forall v tt, c_st cl <> CGot (RSuccess v) tt) -> fw_of c (fwds s) = []).
+Proof. exact forward_once. Qed.
+
+(* (7) the deterministic driver of the correspondence check only performs model steps *)
+Theorem C09_exec_is_run : forall n ops,
+  d_s (exec n ops) = run (rev (d_ls (exec n ops))) (init 0 n).
+Proof. exact exec_is_run. Qed.
+
+(* OPEN: C09_oracle_sound : forall n ops, check_C09 n ops (observe n ops) = true.  Not proved;
+   checked by evaluation on every scenario of every run (lib/c09.py, model_oracle_accepts). *)
+
+(* ---- statement pins ---- *)
+Check (C09_success_sound : forall ls t n c cl v tt,
+  let s := run ls (init t n) in
+  nth_error (calls s) c = Some cl -> c_st cl = CGot (RSuccess v) tt ->
+  first_reply c (replies s) = Some v).
+Check (C09_no_hang : forall ls t n c cl dl,
+  let s := run ls (init t n) in
+  nth_error (calls s) c = Some cl -> c_st cl = CWaiting dl ->
+  (~ alive_at (actors s) (c_callee cl) \/ c_loc cl = LGone) -> c_loc cl <> LTask ->
+  (exists r, nth_error (calls (step s (Poll c))) c
+             = Some (set_call cl (CGot r (now s)) (c_ch cl) (c_loc cl) (c_first cl))
+             /\ (r = RSenderError \/ exists v, r = RSuccess v /\ c_ch cl = ChFull v))
+  /\ ~ caller_quiescent s c).
+Check (C09_no_crosswire : forall s l c c',
+  call_label l = Some c -> c' <> c -> nth_error (calls (step s l)) c' = nth_error (calls s) c').
+
+(* ---- non-vacuity ---- *)
+(* two concurrent callers, replies in the opposite order, each gets its own value *)
+Example ex_two_callers :
+  o_calls (observe 1 [OCall 0 None; OCall 0 None; OSettle;
+                      OAct 0 (mkPlan [] AStore); OSettle;
+                      OAct 1 (mkPlan [(0%nat, Some 20)] (AReply 21)); OSettle])
+  = [mkOC (OSuccess 20) 0 0 true None 0 None; mkOC (OSuccess 21) 0 0 true None 0 None].
+Proof. vm_compute; reflexivity. Qed.
+(* the callee is killed with one request in the handler and one queued: both SenderError *)
+Example ex_kill :
+  o_calls (observe 1 [OCall 0 None; OCall 0 (Some 3000000); OSettle; OKill 0])
+  = [mkOC OSenderError 0 0 true None 0 None; mkOC OSenderError 0 0 true (Some 3000000) 0 None].
+Proof. vm_compute; reflexivity. Qed.
+(* timeout exactly at the deadline; a reply that is already there at the same instant wins *)
+Example ex_timeout :
+  o_calls (observe 1 [OCall 0 (Some 3000000); OSettle; OAdv 3000000; OAct 0 (mkPlan [] (AReply 1))])
+  = [mkOC OTimeout 3000000 0 true (Some 3000000) 0 None]
+  /\ o_calls (observe 1 [OCall 0 (Some 3000000); OSettle; OAct 0 (mkPlan [] (AReply 1)); OAdvRaw 3000000])
+  = [mkOC (OSuccess 1) 3000000 0 true (Some 3000000) 0 None].
+Proof. split; vm_compute; reflexivity. Qed.
+(* a port handed to another task outlives the callee: the caller legitimately keeps waiting,
+   and is answered by that task *)
+Example ex_moved :
+  o_calls (observe 1 [OCall 0 None; OSettle; OAct 0 (mkPlan [] AMove); OSettle; OKill 0; OSettle])
+  = [mkOC OPending 0 0 true None 0 None]
+  /\ o_calls (observe 1 [OCall 0 None; OSettle; OAct 0 (mkPlan [] AMove); OSettle; OKill 0; OSettle; OTask 0 (TReply 9)])
+  = [mkOC (OSuccess 9) 0 0 true None 0 None].
+Proof. split; vm_compute; reflexivity. Qed.
+(* multi_call in request order although the replies arrive in reverse; forward exactly once *)
+Example ex_multi :
+  o_groups (observe 3 [OMulti [0; 1; 2]%nat None; OSettle; OAct 2 (mkPlan [] (AReply 30));
+                       OAct 1 (mkPlan [] (AReply 20)); OAct 0 (mkPlan [] (AReply 10))])
+  = [(GOk [OSuccess 10; OSuccess 20; OSuccess 30] 0, [0; 1; 2]%nat)].
+Proof. vm_compute; reflexivity. Qed.
+Example ex_forward :
+  o_fwds (observe 2 [OFwd 0 1 None; OSettle; OAct 0 (mkPlan [] (AReply 60))]) = [(0%nat, 60, 0, true)]
+  /\ o_fwds (observe 2 [OFwd 0 1 None; OSettle; OAct 0 (mkPlan [] ADrop)]) = [].
+Proof. split; vm_compute; reflexivity. Qed.
+(* the oracle rejects a cross-wired reply, an early timeout, a hang and a double forward *)
+Example ex_oracle :
+  check_C09 1 [OCall 0 None; OCall 0 None; OSettle; OAct 0 (mkPlan [] (AReply 5)); OAct 1 (mkPlan [] (AReply 6))]
+    (mkObs [mkOC (OSuccess 6) 0 0 true None 0 None; mkOC (OSuccess 5) 0 0 true None 0 None] [] [] [true]) = false
+  /\ check_C09 1 [OCall 0 (Some 3000000); OAdv 2000000]
+    (mkObs [mkOC OTimeout 2000000 0 true (Some 3000000) 0 None] [] [] [true]) = false
+  /\ check_C09 1 [OCall 0 None; OSettle; OKill 0]
+    (mkObs [mkOC OPending 0 0 true None 0 None] [] [] [false]) = false
+  /\ check_C09 2 [OFwd 0 1 None; OSettle; OAct 0 (mkPlan [] (AReply 60))]
+    (mkObs [mkOC (OSuccess 60) 0 0 true None 0 (Some 1%nat)] [] [(0%nat, 60, 0, true); (0%nat, 60, 0, true)] [true; true]) = false
+  /\ check_C09 1 [OCall 0 (Some 3000000); OSettle; OAdv 3000000; OAdv 1000000]
+    (mkObs [mkOC OPending 0 0 true (Some 3000000) 0 None] [] [] [true]) = false.
+Proof. repeat split; vm_compute; reflexivity. Qed.
+
+Print Assumptions C09_success_sound.
+Print Assumptions C09_replies_by_holder.
+Print Assumptions C09_no_hang.
+Print Assumptions C09_timeout_bound.
+Print Assumptions C09_timeout_not_early.
+Print Assumptions C09_no_crosswire.
+Print Assumptions C09_multi_order_partial.
+Print Assumptions C09_multi_vector.
+Print Assumptions C09_forward_once.
+Print Assumptions C09_exec_is_run.
